@@ -15,7 +15,7 @@
    EditAll (both).  When the sequence contains a bulk setter the typed lists are reported
    sorted by line index (Go appends new entries in map iteration order). *)
 From Verif.Base Require Import Bytes Wire.
-From Verif.Modfile Require Import EditModel EditOps.
+From Verif.Modfile Require Import EditModel EditOps EditSpec.
 
 Notation "'do' x <- a ; b" := (match a with Some x => b | None => None end)
   (at level 200, x pattern, a at level 100, b at level 200).
@@ -268,8 +268,60 @@ Definition run_case (proj : nat) (a : val) : val :=
   | _ => VBadCase
   end.
 
+(* ---------------------------------------------------------------- invariants, executably
+
+   EditInv evaluates the statements of the C15/C08 theorems on the case inside the model:
+   the starting file is Coherent, the final file is Coherent, the per-operation error
+   flags are those of the keyed model, and the abstraction of the final typed lists is
+   the keyed model's final state.  The expected answer is four times true whenever every
+   operation has valid arguments and the run does not panic (the harness only emits the
+   case then). *)
+Definition opt_str_eqb (a b : option str) : bool :=
+  match a, b with
+  | Some x, Some y => str_eqb x y
+  | None, None => true
+  | _, _ => false
+  end.
+Fixpoint list_eqb {A} (e : A -> A -> bool) (a b : list A) : bool :=
+  match a, b with
+  | [], [] => true
+  | x :: a', y :: b' => e x y && list_eqb e a' b'
+  | _, _ => false
+  end.
+Definition kstate_eqb (a b : kstate) : bool :=
+  opt_str_eqb (k_module a) (k_module b) && opt_str_eqb (k_go a) (k_go b)
+  && opt_str_eqb (k_toolchain a) (k_toolchain b)
+  && list_eqb pair_eqb (k_godebug a) (k_godebug b)
+  && list_eqb (fun x y => match x, y with (p, v, i), (q, w, j) => str_eqb p q && str_eqb v w && Bool.eqb i j end)
+              (k_require a) (k_require b)
+  && list_eqb pair_eqb (k_exclude a) (k_exclude b)
+  && list_eqb (fun x y => match x, y with (p, v, n, m), (q, w, n', m') =>
+                 str_eqb p q && str_eqb v w && str_eqb n n' && str_eqb m m' end) (k_replace a) (k_replace b)
+  && list_eqb (fun x y => match x, y with (p, v, r), (q, w, r') => str_eqb p q && str_eqb v w && str_eqb r r' end)
+              (k_retract a) (k_retract b)
+  && list_eqb str_eqb (k_tool a) (k_tool b)
+  && list_eqb pair_eqb (k_use a) (k_use b).
+
+Definition inv_case (a : val) : val :=
+  match a with
+  | VL [st; VL ops] =>
+      match dec_file st, dec_list dec_op ops with
+      | Some f, Some os =>
+          match run_ops os f with
+          | RunPanic k => VL [VS (B "panic"); VI (Z.of_nat k)]
+          | RunOk errs f' =>
+              let (k', kerrs) := krun os (abs f) [] in
+              VL [VB (coherentb f); VB (coherentb f'); VB (list_eqb Bool.eqb errs kerrs);
+                  VB (kstate_eqb (abs f') k'); VB (forallb valid_args os)]
+          end
+      | _, _ => VBadCase
+      end
+  | _ => VBadCase
+  end.
+
 Definition dispatch (f : str) (a : val) : val :=
   if str_eqb f (B "EditTyped") then run_case 0 a
   else if str_eqb f (B "EditSyntax") then run_case 1 a
   else if str_eqb f (B "EditAll") then run_case 2 a
+  else if str_eqb f (B "EditInv") then inv_case a
   else VBadCase.
